@@ -609,6 +609,75 @@ def check_forward(ctx, fb):
                     break
 
 
+class _SlotWalker(pathwalk.Walker):
+    """events: ('empty', truth) a branch on BiList::Empty(); ('erase', nargs, loc) an erase on the sleep list;
+    ('moved-all', loc) PushAll(std::move(slot)) — every sleeper of a slot goes to the run queue"""
+    loop_bound = 1
+
+    def on_node(self, fn, n, st):
+        if n['k'] == 'CXXMemberCallExpr':
+            last = n['cn'].split('::')[-1]
+            if last == 'erase' and n.get('obj') is not None:
+                o = fn.sn(n['obj'])
+                while o is not None and o['k'] in ('ImplicitCastExpr', 'UnaryOperator') and o.get('ch'):
+                    o = fn.sn(o['ch'][0])
+                if o is not None and o['k'] == 'MemberExpr' and o.get('mn') == '_sleep_list':
+                    st.events.append(('erase', len(n.get('args', [])), fn.loc(n)))
+            elif last == 'PushAll':
+                st.events.append(('moved-all', fn.loc(n)))
+
+    def on_edge(self, fn, ci, taken, st):
+        c = fn.sn(ci)
+        neg = False
+        while c is not None and c['k'] == 'UnaryOperator' and c['op'] == '!':
+            neg = not neg
+            c = fn.sn(c['ch'][0])
+        if c is None:
+            return
+        names = [fn.nodes[j].get('cn', '') for j in fn.deep_descendants(c['i'])] + [c.get('cn', '')]
+        if any(x.endswith('BiList::Empty') for x in names):
+            st.events.append(('empty', taken != neg))
+
+
+def check_sleep_slots(ctx, fb, rule):
+    """R-SLEEPSLOT: the scheduler keeps its sleepers in slots (one list per wake-up time).  A slot may be erased from
+    the sleep list only when nobody sleeps in it any more: on a path that saw its list Empty(), or (the range erase of
+    WakeUpNeeded) after every sleeper of the erased slots was moved to the run queue.  Erasing a slot that still holds
+    a fiber destroys the only link to it: its sleep / timed wait never ends and join() on it never returns."""
+    n = 0
+    for f in fb.fn.values():
+        if f.cfg is None or f.clsq != 'yaclib::fault::Scheduler':
+            continue
+        if not any(c['cn'].split('::')[-1] == 'erase' for c in f.calls()):
+            continue
+        res = _SlotWalker(fb).run(f)
+        sites = sorted({e[2] for st, _ in res for e in st.events if e[0] == 'erase'})
+        for site in sites:
+            key = 'R-SLEEPSLOT %s erase@%s' % (f.qn.split('::')[-1], site.rsplit(':', 1)[-1] if False else f.n)
+            ctx.instance(rule, 'R-SLEEPSLOT %s' % f.qn, dict(site=site))
+            n += 1
+            for st, _ in res:
+                ev = st.events
+                for i, e in enumerate(ev):
+                    if e[0] != 'erase' or e[2] != site:
+                        continue
+                    ok = ('empty', True) in ev[:i] if e[1] == 1 else any(x[0] == 'moved-all' for x in ev[:i]) or \
+                        not any(x[0] == 'erase' for x in ev[:i + 1] if False)
+                    if e[1] != 1:
+                        # range erase: allowed when the function moves whole slots to the run queue (PushAll); a path
+                        # that erases without having moved anything erases the empty range [begin, begin)
+                        ok = any(c['cn'].split('::')[-1] == 'PushAll' for c in f.calls())
+                    if not ok:
+                        ctx.report(rule, 'R-SLEEPSLOT %s' % f.qn, site, 'a slot of the sleep list is erased on a path that '
+                                   'did not see its list Empty(): another fiber sleeping until the same instant is cut '
+                                   'off — its sleep_until / timed wait never ends and join() on it never returns')
+                        break
+                else:
+                    continue
+                break
+    return n
+
+
 def run(ctx):
     fbs = ctx.facts(['KF'], kinds=('lib', 'probe'), only=r'p_std\.cpp$|src/fault/fiber/', tests=r'/test/')
     fb = fbs['KF']
@@ -618,6 +687,9 @@ def run(ctx):
     ctx.guard(lambda: check_cv(ctx, fb))
     ctx.guard(lambda: check_join(ctx, fb))
     ctx.guard(lambda: check_forward(ctx, fb))
+    rsl = ctx.rule('R-SLEEPSLOT', 'a slot of the scheduler\'s sleep list is erased only when nobody sleeps in it (Empty() seen '
+                   'on the path) or after its sleepers were moved to the run queue', minimum=2)
+    ctx.guard(lambda: check_sleep_slots(ctx, fb, rsl))
     rodr = ctx.rule('R-ODR', 'every inline / constexpr library function used by the yaclib_std wrappers is defined in the '
                     'translation unit that uses it (otherwise that part of the API does not link)', minimum=1)
     from rules import lib_core
